@@ -691,6 +691,68 @@ def h5c(rec, world, shard, nshards, bound):
     return sched.explore(mk, bound, chk, shard_filter(shard, nshards), on_divergence=diverged(rec))
 
 
+def h10(rec, world, shard, nshards, bound):
+    """Library data (hedId ranges) of the bundled libraries: a first reader interrupted at every point (H10), or two
+    readers interleaved (H10c), then a reader in a fresh process without network: it gets the bundled ranges, and no
+    partially written json file stays under the final name."""
+    src = os.path.join(core.SCHEMA_DATA, "library_data", "library_data.json")
+    os.makedirs(os.path.join(world.installed, "library_data"), exist_ok=True)
+    shutil.copy(src, os.path.join(world.installed, "library_data", "library_data.json"))
+    with open(src, "rb") as f:
+        raw = f.read()
+    bundled = json.loads(raw)
+    names = [n for n in ("score", "", "lang") if n in bundled][:2]
+
+    def reader(name):
+        def body():
+            return ("library-data", name, WORLD.hc.get_library_data(name))
+        return body
+
+    def judge(x, harness, crashed):
+        rec.n("evaluations")
+        rec.n("transitions", len(x.points))
+        if x.deviations:
+            rec.n("distinct_nontrivial")
+        where = {"harness": harness, "choices": x.taken, "deviations": x.deviations,
+                 "schedule": [(pid, v, k, os.path.basename(str(d))) for pid, v, k, d in x.log][-30:]}
+        for p in x.procs:
+            if p.error is not None:
+                rec.violation(f"C19:{harness}:process-raised:{type(p.error).__name__}", process=p.name, error=repr(p.error)[:200], **where)
+            if p.result and p.result[2] != bundled[p.result[1]] and not x.deviations:
+                rec.violation(f"C19:{harness}:bundled-library-data-not-returned", process=p.name, got=repr(p.result[2])[:100], **where)
+        # a later process (nothing memoised), the network unreachable
+        for name in names:
+            world.hc.get_library_data.cache_clear()
+            try:
+                got = world.hc.get_library_data(name)
+            except BaseException as e:  # noqa
+                rec.violation(f"C19:{harness}:later-reader-raised:{type(e).__name__}", library=name, error=repr(e)[:200], **where)
+                continue
+            if got != bundled[name]:
+                rec.violation(f"C19:{harness}:later-reader-gets-no-bundled-library-data", library=name, got=repr(got)[:100],
+                              folder=sorted(os.listdir(os.path.join(world.cache, "library_data")))
+                              if os.path.isdir(os.path.join(world.cache, "library_data")) else None, **where)
+        final = os.path.join(world.cache, "library_data", "library_data.json")
+        if os.path.exists(final):
+            with open(final, "rb") as f:
+                if f.read() != raw:
+                    rec.violation(f"C19:{harness}:torn-file-kept-under-final-name", files=["library_data.json"], **where)
+        rec.outcome(f"{harness}:" + ("interrupted" if crashed else "complete"))
+        rec.state((harness, tuple(x.taken)))
+
+    def mk1(choices):
+        return run_exec(world, [("reader", reader(names[0]), True)], choices)
+
+    st = sched.explore(mk1, 1, lambda x: judge(x, "H10", x.procs[0].state == "dead"), shard_filter(shard, nshards),
+                       on_divergence=diverged(rec))
+
+    def mk2(choices):
+        return run_exec(world, [("reader-1", reader(names[0]), False), ("reader-2", reader(names[-1]), False)], choices, crash=False)
+
+    st2 = sched.explore(mk2, bound, lambda x: judge(x, "H10c", False), shard_filter(shard, nshards), on_divergence=diverged(rec))
+    return {"executions": st["executions"] + st2["executions"]}
+
+
 def h0(rec, world, versions):
     """Every leftover cache directory an earlier process can leave behind, followed by one load of each installed version
     (sequential): each installed file {absent, complete}, a stale temporary copy {absent, half}, lock file {absent, present},
@@ -1093,7 +1155,10 @@ def worker(rec, shard, nshards, scratch, files, bounds, thorough, seed):
                      ("H5c", lambda: h5c(rec, WORLD, shard, nshards, bounds["H4"])),
                      ("H8", lambda: h8(rec, WORLD, shard, nshards, bounds["H8"], versions)),
                      ("H8b", lambda: h8(rec, WORLD, shard, nshards, bounds["H8"], versions, (version_file(versions[1]),))),
-                     ("H6", lambda: h6(rec, WORLD, shard, nshards, bounds["H6"], versions[0]))):
+                     # the same with a bundled library schema as the version loaded
+                     ("H8l", lambda: h8(rec, WORLD, shard, nshards, bounds["H8"], versions[::-1])),
+                     ("H6", lambda: h6(rec, WORLD, shard, nshards, bounds["H6"], versions[0])),
+                     ("H10", lambda: h10(rec, WORLD, shard, nshards, bounds["H4c"]))):
         st = fn()
         rec.n("executions_" + name, st["executions"])
     if shard == 0:
@@ -1108,7 +1173,7 @@ def worker(rec, shard, nshards, scratch, files, bounds, thorough, seed):
 
 
 def run(ctx):
-    files = ["HED8.3.0.xml", "HED8.2.0.xml"] if not ctx.thorough else ["HED8.3.0.xml", "HED8.2.0.xml",
+    files = ["HED8.3.0.xml", "HED8.2.0.xml", "HED_testlib_2.0.0.xml"] if not ctx.thorough else ["HED8.3.0.xml", "HED8.2.0.xml",
                                                                       "HED_score_1.1.0.xml", "HED_testlib_2.0.0.xml"]
     bounds = ({"H1": 1, "H3": 2, "H4": 2, "H4c": 2, "H6": 1, "H8": 3} if not ctx.thorough else
               {"H1": 2, "H3": 2, "H4": 3, "H4c": 3, "H6": 2, "H8": 4})
